@@ -42,7 +42,7 @@ type c10Seg struct {
 	DeclSuf  int    `json:"decl_suffix"`  // -1: consistent
 	TsSkew   int    `json:"ts_skew"`      // minutes added to the timestamp (0, or |skew| >= 2)
 	KeyUser  string `json:"key_user"`     // user whose credential encrypts the segment
-	From     string `json:"from"`         // UDP: "home" (the address the own sessions live at) | "fresh"
+	From     string `json:"from"`         // UDP: "home" (the address the own sessions live at) | "fresh" | "port0" (a source address the socket cannot send to: source port 0)
 	BadTag   bool   `json:"bad_tag"`
 	BadLEPad bool   `json:"bad_le_pad"`
 	Len      int    `json:"len"`    // garbage length
